@@ -74,7 +74,7 @@ def run(ctx):
     impl = ctx.build('asan')
     images = []
     TITLES.clear()
-    n = 10 if ctx.tier == 'quick' else 120
+    n = 10 if ctx.tier == 'quick' else 40
     for k in range(n):
         d = discs.gen_disc(r, max_files=r.choice([3, 10, None]))
         # make sure a file $.A exists for type/list/dump
@@ -131,7 +131,7 @@ def run(ctx):
     cases = []
     variants = [[], ['--verbose'], ['--show-config'], ['--verbose', '--show-config'], ['@after:--verbose'], ['--ui', 'acorn'], ['--ui', 'watford'], ['--ui', 'opus']]
     for (name, img, kind) in images:
-        cmds = COMMANDS if ctx.tier == 'thorough' or kind == 'testdata' else [COMMANDS[0]] + r.shuffle(COMMANDS[1:])[:3]
+        cmds = COMMANDS if kind == 'testdata' else [COMMANDS[0]] + r.shuffle(COMMANDS[1:])[:(7 if ctx.tier == 'thorough' else 3)]
         for cmd in cmds:
             for v in variants:
                 if v and v[0].startswith('@after:'):
